@@ -49,7 +49,7 @@ pub fn d(name: &str, kind: &'static str, words: &str) -> Decl {
     Decl { name: name.into(), kind, words: words.split_whitespace().collect::<Vec<_>>().join(" "), faulty: false }
 }
 
-pub const SITES: [(&str, &str, bool); 40] = [
+pub const SITES: [(&str, &str, bool); 44] = [
     // (label, template with one hole, hole is an assignment target)
     ("assign-rhs", "y := {} ;", false),
     ("assign-lhs", "{} := 1 ;", true),
@@ -92,6 +92,11 @@ pub const SITES: [(&str, &str, bool); 40] = [
     ("nested-call-arg", "y := Fn ( Fn ( {} ) ) ;", false),
     ("unary-on-parenthesis", "y := - ( {} + 1 ) ;", false),
     ("fb-arg-expression", "inst ( a := 1 + {} , b := TRUE ) ;", false),
+    // a condition that is evaluated after a body whose last statement assigns an enumeration value
+    ("elsif-cond-after-enum-body", "IF y > 0 THEN lv := Low ; ELSIF {} > 0 THEN y := 2 ; END_IF ;", false),
+    ("second-elsif-cond-after-enum-body", "IF y > 0 THEN y := 1 ; ELSIF y < 0 THEN lv := Low ; ELSIF {} > 0 THEN y := 2 ; END_IF ;", false),
+    ("until-after-enum-body", "REPEAT lv := Low ; UNTIL {} > 3 END_REPEAT ;", false),
+    ("else-body-after-enum-body", "IF y > 0 THEN lv := Low ; ELSE y := {} ; END_IF ;", false),
 ];
 
 thread_local! {
